@@ -622,7 +622,7 @@ func (w *Worker) iterNext(it *IterV, instr *ssa.Next) Value {
 		// entry may have been deleted during iteration
 		live := false
 		for j, mk := range it.M.Keys {
-			if mk == k || isSameKey(mk, k) {
+			if isSameKey(mk, k) {
 				live = true
 				v = it.M.Vals[j]
 				break
@@ -683,8 +683,18 @@ func isSameKey(a, b Value) bool {
 			return true
 		}
 		return false
+	case ArrayV:
+		if bs, ok := b.(ArrayV); ok && len(a.E) == len(bs.E) {
+			for i := range a.E {
+				if !isSameKey(a.E[i], bs.E[i]) {
+					return false
+				}
+			}
+			return true
+		}
+		return false
 	}
-	return a == b
+	return sameValue(a, b)
 }
 
 // ---------- builtins ----------
